@@ -798,6 +798,16 @@ func (vc *VC) trCall(x *ECall, env *Env) TV {
 			}
 		}
 		return vc.errTV("entry(%s): no unique entry value", id.Name)
+	case "deref":
+		a := vc.tr(x.Args[0], env)
+		pt, ok := a.T.Underlying().(*types.Pointer)
+		if !ok {
+			return vc.errTV("deref of %s", a.T)
+		}
+		if isStruct(pt.Elem()) || isArray(pt.Elem()) {
+			return a
+		}
+		return TV{T: pt.Elem(), S: vc.envHeapRead(env, cellKey(pt.Elem()), pt.Elem(), a.S)}
 	case "closed":
 		a := vc.tr(x.Args[0], env)
 		return TV{T: B, S: vc.envHeapRead(env, "#closed", B, a.S)}
